@@ -343,6 +343,11 @@ func (p *queryPlan) processClause(ctx context.Context, cls *semantic.GraphClause
 				b = true
 			}
 		}
+		if len(tbl.Bindings()) > 0 && tbl.NumRows() == 0 {
+			// The triple exists but the aliases of the clause cannot be
+			// satisfied, e.g. the same alias is given to two different values.
+			b = true
+		}
 		if len(p.tbl.Bindings()) == 0 {
 			if err := p.tbl.AppendTable(tbl); err != nil {
 				return b, err
